@@ -13,7 +13,7 @@ use serde_json::{json, Value};
 const STREAM: u64 = 12;
 
 pub fn run(ctx: &Ctx) -> Report {
-    let n = ctx.cases(3_000, 120_000);
+    let n = ctx.cases(10_000, 600_000);
     let mut local = run_cases(ctx, n, |case, l| one_case(ctx, case, l));
     // order clause, judged over the whole run
     let counters = local.counters.clone();
